@@ -182,7 +182,7 @@ def run_task(t):
         mm = re.search(r'"n":(\d+)', lines[-1]) if lines else None
         if not mm and lines:     # the process died: its fatal record (terminate / hang / registry) carries the script index
             for ln in reversed(lines):
-                mm = re.search(r'"e":"(?:terminate|hang|double-destroy|double-construct|use-after-destroy)","o":(\d+)', ln)
+                mm = re.search(r'"e":"(?:terminate|hang|died|double-destroy|double-construct|use-after-destroy)","o":(\d+)', ln)
                 if mm:
                     break
         if mm:      # the interpreter numbers the scripts of this chunk itself (fault mode runs several executions per script)
